@@ -296,16 +296,31 @@ class _ReadDefinitionsRec:
                            s.level, s.target_definitions, s.target_definitions.length)
 
 
+_PARAM_COLLECTIONS = ("direct", "transitive", "file_pool")  # keyword parameters: part of the function's interface
+
+
+def _pending_sets(s):
+    """the function's own set(s) of definitions (whatever the code calls them): filled by the visitor, drained per target"""
+    return [v for k, v in s.carried.items() if k not in _PARAM_COLLECTIONS and isinstance(v, SymSet)]
+
+
 @loop_invariant(R + "_read_definitions", loop=0)
 def _inv_targets(s):
     e = ENTRY()
     out = bookkeeping(s.direct, s.transitive, s.file_pool, e.D0, e.T0, e.P0, e.h0, s.level, s.target_definitions, s.i)
-    out["nothing-pending-between-targets"] = EMPTY(s._pending_definitions)
+    out["nothing-pending-between-targets"] = AND(*[EMPTY(v) for v in _pending_sets(s)])
     return out
 
 
-_inv_targets.kinds = {"direct": ObjSetOf(COMPOSITE), "transitive": ObjSetOf(COMPOSITE), "file_pool": MapOf(Str, ObjOf(RDF)),
-                      "_pending_definitions": ObjSetOf(RDF)}
+def _carried_kind(name, value):
+    if name in _PARAM_COLLECTIONS:
+        return {"direct": ObjSetOf(COMPOSITE), "transitive": ObjSetOf(COMPOSITE), "file_pool": MapOf(Str, ObjOf(RDF))}[name]
+    if isinstance(value, SymSet) and (XR.L._is_empty_set(value.term) or getattr(value, "clsname", None) == RDF):
+        return ObjSetOf(RDF)  # a local set of definitions (allocated empty by the function)
+    return None
+
+
+_inv_targets.kinds_by_value = _carried_kind
 _inv_targets.in_place = True
 _inv_targets.havoc_ghost_heap = True
 
@@ -356,6 +371,30 @@ class _ReadDefinitionsTop:
 
 
 LEVEL = "proof"
-NOT_COVERED = []
-EXPLANATION = ""
-ASSUMPTIONS = []
+LEAN = ["Reader.lean"]  # missing_le / missing_lt: the finite-set facts behind `_missing_lemma` (termination measure)
+NOT_COVERED = [
+    "the behaviour of ReadableDSDLFile.read itself (DSDLDefinition.read: C09; DataTypeBuilder.resolve_versioned_data_type calling "
+    "on_definition before it reads a dependency: C09) - here an ASSUMED model (specs/drivers/reader_model.py)",
+    "that the result lists are in file_sort order: C10's contract of file_sort (proved for lists) applied to an arbitrary "
+    "duplicate-free enumeration of the set",
+    "set membership of composites / definitions is object identity (CompositeType / DSDLDefinition define == and hash by "
+    "value: C18 / C09; two distinct pooled definitions with equal name and version are rejected later by C11's checks)",
+    "@print output delivered by read(): only that the handler handed to read() reports under the target's path (one symbolic "
+    "delivery per read); how often read() calls it is read()'s business (C17 on_directive)",
+    "state after an exception: nothing is claimed about direct / transitive / file_pool when an Error leaves",
+]
+EXPLANATION = ("The real bodies of _read_definitions (recursive, loop invariant over the target list), its nested visitor class "
+               "_Callback (inlined closure-capturing class) and read_definitions are executed symbolically: sets of objects and "
+               "the path dictionary are parameters mutated in place, the one mutable attribute of definition objects "
+               "(composite_type) lives in a ghost heap, read() is an assumed model written as code.")
+ASSUMPTIONS = [
+    "model of ReadableDSDLFile.read (reader_model.read): calls on_definition(referrer, dep) on the given visitors for a finite "
+    "set of definitions taken from the given lookup list (ghost provenance `resolved`), then raises anything or returns the "
+    "composite of the definition, which is cached; caches of other definitions may be filled, none is cleared; a composite "
+    "that was not cached before the call is a new object (not a member of any existing set)",
+    "model of DSDLFile.composite_type (the cached composite, None before), DSDLFile.file_path (fixed per object, a truthy Path "
+    "modelled as a non-empty text), file_sort on a set (duplicate-free enumeration of the members)",
+    "finite-set lemma behind the termination measure: lean/Pydsdl/Reader.lean (missing_le, missing_lt), instantiated by hand "
+    "in `_missing_lemma`",
+    "functools.partial, set.add/remove/clear, dict.setdefault, `in`, len(set) > 0 iff non-empty (library model)",
+]
